@@ -224,7 +224,6 @@ static Plan makePlan(const Case& c)
   // options
   p.est = (o & 1) != 0; p.std_ = (o & 2) != 0; p.varz = (o & 4) != 0;
   if (!p.est && !p.std_ && !p.varz) p.est = true;
-  if (p.driftOrder > 0 || p.nfex > 0) p.varz = p.varz && true;
   if (k == K_KRIGDGM) p.varz = false;
   if (k == K_KRIBAYES) p.varz = false;
   p.block = (k == K_KRIGING) && p.outGrid && (o & 8);
@@ -601,7 +600,6 @@ static Objs build(const Case& c, const Plan& p, int mode)
   // ---- PCA (computed on a scratch copy of the valid data)
   if (p.calc == K_PCAZ2F)
   {
-    Plan pv = p; Case cv = c; cv.collide = 0;
     o.pca.reset(new PCA());
     if (mode == M_NONE || mode == M_NVAR2 || mode == M_NO_Z)
     {
@@ -730,6 +728,16 @@ static std::vector<int> applicableModes(const Plan& p)
   if (inSet(k, {K_INVDIST, K_NEAREST, K_MOVAVE, K_MOVMED, K_LSTSQR, K_MORPHO, K_SMOOTH, K_G2GCOPY, K_PCAZ2F})) m.push_back(M_NVAR2);
   if (k == K_KRIMAGE) m.push_back(M_NEIGH_NOT_IMAGE);
   if (inSet(k, {K_KRIBAYES, K_SIMBAYES})) m.push_back(M_BAYES_PRIOR);
+  // the modes that are detected after variables were created (the non-trivial ones) are drawn three times as often
+  size_t n0 = m.size();
+  for (size_t i = 0; i < n0; i++)
+  {
+    bool late = inSet(m[i], {M_BAD_NDISCS, M_BLOCK_ON_POINT, M_DGM_SILL, M_NEIGH_IMAGE, M_NBTUBA0, M_NEIGH_NOT_IMAGE}) ||
+                (m[i] == M_NO_Z && (krigFam || inSet(k, {K_SIMTUB, K_SIMBAYES}))) ||
+                (m[i] == M_DBOUT_NDIM && inSet(k, {K_MIGRATE, K_MIGMULTI, K_MIGLOC, K_MIGATT})) ||
+                (inSet(m[i], {M_EMPTY_SEL_IN, M_EMPTY_SEL_OUT, M_NMINI}) && inSet(k, {K_KRIGTEST, K_XVALID}));
+    if (late) { m.push_back(m[i]); m.push_back(m[i]); }
+  }
   return m;
 }
 
@@ -1016,6 +1024,7 @@ static void runNatural(const Case& c, Ctx& ctx)
   if (ret != 0 || p.calc == K_KRIGTEST)
   {
     ctx.label("rejected");
+    if (nadd > 0) ctx.label("late:" + cn + ":" + kModeName[mode]);
     ctx.nontrivial(nadd > 0);
     bool same = expectUntouched(before, after, prefix, sk);
     if (same) checkReuse(c, p, o, badMask(mode), ref, prefix, sk);
